@@ -81,11 +81,18 @@ pub fn judge_rebackup(t: &Tree, opts: &BOpts, tag: &str, scratch: &Scratch) -> V
     // A third backup of the still unchanged tree under different settings (other sizes, and owners
     // no longer recorded): unchanged files keep their recorded addresses whatever the settings, so
     // again nothing is written.
-    let other = BOpts::new(
-        if opts.hunk == 1 { 1000 } else { 1 },
-        if opts.block == 4 { 8 } else { 4 },
-        if opts.cap == 3 { 8 } else { 3 },
-    )
+    // (blocks of a few bytes for the small trees; for trees of megabytes other, still moderate
+    // sizes, so that the run stays short even if files were to be read again)
+    let bytes: usize = t.values().map(|n| match &n.kind { crate::tree::NodeKind::File(c) => c.len(), _ => 0 }).sum();
+    let other = if bytes > (1 << 20) {
+        BOpts::new(if opts.hunk == 1 { 1000 } else { 1 }, if opts.block == 1 << 19 { 1 << 18 } else { 1 << 19 }, 1 << 10)
+    } else {
+        BOpts::new(
+            if opts.hunk == 1 { 1000 } else { 1 },
+            if opts.block == 4 { 8 } else { 4 },
+            if opts.cap == 3 { 8 } else { 3 },
+        )
+    }
     .without_owner();
     let icpt3 = Icpt::new(&arch, Plan::none());
     let out3 = run::do_backup(&arch, &src, &other, Some(&icpt3), Flavor::Current);
